@@ -181,3 +181,19 @@ PROPS["C13"] = dict(
     technique="bounded-exhaustive enumeration of index/offset/permutation alphabets on the real code against reference swap loops",
     assumptions=["reference loops in harness", "clang 14 ASan+UBSan builds: host (L1 32K), min-cache without SSE2 (L1 4K)"],
 )
+
+def _c17_runs(tier):
+    rs = []
+    for mode in ("pairs", "order", "pivot"):
+        rs.append(Run(C(), "harness/p_c17.c", ["--mode=" + mode, "--setbits=24"], group=mode))
+    rs.append(Run(C(sse2=0, simd="native", **MIN), "harness/p_c17.c", ["--mode=pairs"], group="pairs"))
+    return rs
+
+PROPS["C17"] = dict(
+    level="exploration", runs=_c17_runs,
+    rule="for rows {1,2,5} x every ncols in 1..130 and {191,192,193,257} x base {zero, ones, PR} x 4 operand placements (owned, and windows at odd/even word offsets with ones / PR outside the view): EVERY pair (A, A xor U(i,j)) -> mzd_equal false both ways, mzd_cmp non-zero and antisymmetric, is_zero false for single entries, first_zero_row = i+1, read_bit; mzd_cmp zero-iff-equal and transitivity on ALL triples of three sets (16 2x2 matrices, 24 and 27 matrices differing in first/middle/last word); mzd_find_pivot for every single-entry matrix and two-entry matrices (second entry on a boundary column set) on 5 x {1,63,64,65,127,128,129,130,192,200} x start rows x start columns (all for narrow, boundary set for wide) x placements; 'evaluations' counts predicate evaluations; non-trivial = matrix non-zero; distinct = distinct (matrix, placement)",
+    level_text="Bounded-exhaustive exploration of the observer functions on complete one-bit-apart families at every position class and on all start positions of the pivot search, for owned matrices and views, against the abstract definitions.",
+    level_note="Bounded: shapes up to 5 x 257; two-entry matrices only with the second entry on boundary columns.",
+    technique="bounded-exhaustive enumeration (all one-bit-apart pairs, all triples of small sets, all pivot start positions) on the real code against abstract predicates",
+    assumptions=["abstract predicates in harness/p_c17.c", "clang 14 ASan+UBSan builds: host, min-cache without SSE2"],
+)
